@@ -415,7 +415,7 @@ CHECKS["C10"] = {
     "level": "exploration",
     "rule": "A history plan drawn up front by rapid: MaxConns 1..4; MaxConnWaitTimeout in {0, 30 ms, 300 ms}; 1..6 goroutines x 1..6 calls of the real HostClient.Do; per call: method (GET/PUT retryable, POST not), 40 ms read timeout or none, context live / cancelled before / cancelled 5 ms into the call, a delay of 0..3 ms before the call, and the fault of the exchange that serves it "
             "{ok, ok + Connection: close, ok then silent close, close before first byte, close mid-header, close mid-body, stall 130 ms (past the read timeout), 100-continue then ok}; per dial {ok, error, 15 ms slow}. Connections are in-memory pipes (with TCP-like write semantics) served by scripted peer goroutines that parse requests with the strict reader and answer by request id. "
-            "Non-trivial = >= 2 goroutines contending for fewer connections than goroutines with >= 1 fault or cancellation; distinct by FNV-64 of the plan. Further dimensions: whole-request timeouts (300 ms) and the fault \"silent 180 ms then close, stall when the request is repeated\"; calls through HostClient.GetTimeout (the exchange outlives the caller); MaxConnDuration 1/4 ms (the client announces Connection: close); a rapid-drawn table of yields/sleeps applied at the pool lock boundaries through hook H2. A scheduling heartbeat gates every wall-clock verdict. Round 4: the close option of a response is spelled one of 7 ways (case, token lists, two Connection lines); ResponseBodyStream on/off per history with response bodies padded to 100 B..40 KB (8192/8193 included) and close-mid-body cutting them in half, i.e. inside or behind the 8 KiB a streaming client reads before it returns.",
+            "Non-trivial = >= 2 goroutines contending for fewer connections than goroutines with >= 1 fault or cancellation; distinct by FNV-64 of the plan. Further dimensions: whole-request timeouts (300 ms) and the fault \"silent 180 ms then close, stall when the request is repeated\"; calls through HostClient.GetTimeout (the exchange outlives the caller); MaxConnDuration 1/4 ms (the client announces Connection: close); a rapid-drawn table of yields/sleeps applied at the pool lock boundaries through hook H2. A scheduling heartbeat gates every wall-clock verdict. Round 4: the close option of a response is spelled one of 7 ways (case, token lists, two Connection lines); units get-helpers / get-helpers-race: 12 goroutines x 60 HostClient.GetTimeout calls on a streaming client, every second response cut inside its body, each successful call must return its own body (the second unit is the same test built with the race detector); ResponseBodyStream on/off per history with response bodies padded to 100 B..40 KB (8192/8193 included) and close-mid-body cutting them in half, i.e. inside or behind the 8 KiB a streaming client reads before it returns.",
     "assumptions": [
         "schedules are sampled by real-time perturbation, not enumerated; rapid cannot shrink a schedule-dependent failure, the full history is printed instead",
         "timeouts are asserted as 'returns within T + 2 s' (pure scheduling slack); conservation is polled for up to 3 s before it counts as a leak",
@@ -427,6 +427,8 @@ CHECKS["C10"] = {
     "technique": "property-based testing of concurrent histories (rapid-generated plans, fault injection by a scripted peer) against history invariants",
     "nontrivial_floor": 20,
     "units": [
+        {"name": "get-helpers", "run": "^TestC10GetHelpers$", "kind": "plain"},
+        {"name": "get-helpers-race", "run": "^TestC10GetHelpers$", "kind": "plain", "race": True},
         {"name": "real-dialers", "run": "^TestC10RealDialers$", "kind": "plain"},
         {"name": "regress", "run": "^TestC10Regress$", "kind": "plain"},
         {"name": "histories", "run": "^TestC10Histories$", "kind": "rapid", "checks": {"quick": 1280, "thorough": 16000}, "shards": {"quick": 16, "thorough": 16}, "shrinktime": "30s"},
